@@ -97,7 +97,7 @@
         assert forall|env: Env| #[trigger] lc_eval(*self, env) == rmul_s(c, lc_eval(*old(self), env)) by {
             lemma_msum_scale(k0, m0, m1, c, env, k0.len() as int);
             let s = msum(k0, m0, env, k0.len() as int); let r0 = rv(old(self).current_rhs);
-            assert(c * (r0 + s) == r0 * c + c * s) by (nonlinear_arith);
+            lemma_mul_sum(c, r0, s);
         }
     }
 @fn LinearizationContext::div_by @entry
@@ -126,6 +126,6 @@
         assert forall|env: Env| #[trigger] lc_eval(*self, env) == rdiv_s(lc_eval(*old(self), env), d) by {
             lemma_msum_div(k0, m0, m1, d, env, k0.len() as int);
             let s = msum(k0, m0, env, k0.len() as int); let r0 = rv(old(self).current_rhs);
-            assert((r0 + s) / d == r0 / d + s / d) by (nonlinear_arith) requires d != 0real;
+            lemma_div_sum(r0, s, d);
         }
     }
